@@ -44,7 +44,7 @@ def cli_twins(V, rows, oby):
     n = 0
     for row in rows:
         o = oby[row["id"]]
-        if not row.get("keepText") or o.get("err") or not o.get("text"):
+        if not row.get("keepText") or o.get("err") or not o.get("text") or n >= 60:
             continue
         text = o["text"]
         # the same tokens on one line: line breaks outside strings become blanks, then 70 000 blanks before the last token
